@@ -34,7 +34,10 @@ FIRST_TRY = {'C01': True, 'C02': True, 'C03': False, 'C04': True, 'C05': False, 
              'C18j': False, 'C19j': False, 'C20j': True,
              'C01k': False, 'C02k': True, 'C03k': False, 'C04k': False, 'C05k': True, 'C06k': True, 'C07k': True, 'C08k': False, 'C09k': True,
              'C10k': False, 'C11k': False, 'C12k': True, 'C13k': False, 'C14k': False, 'C15k': False, 'C16k': True, 'C17k': True,
-             'C18k': False, 'C19k': True, 'C20k': False}
+             'C18k': False, 'C19k': True, 'C20k': False,
+             'C01m': True, 'C02m': False, 'C03m': False, 'C04m': True, 'C05m': True, 'C06m': True, 'C07m': True, 'C08m': True, 'C09m': True,
+             'C10m': True, 'C11m': True, 'C12m': True, 'C13m': True, 'C14m': True, 'C15m': False, 'C16m': True, 'C17m': False,
+             'C18m': False, 'C19m': False, 'C20m': True}
 REJECTED = {
     'C18h': 'superseded: caught by C18 (send:Updates:over) until repair e4f0c24 moved the counting to write time; since then the '
             'change is consistent with the statistic and no longer a C18 violation',
@@ -117,6 +120,12 @@ STRENGTHEN = {
     'C15k': 'caught by C09 from the start; attribute permutations are now also decoded as on a 2-octet-AS session (AS_PATH / AGGREGATOR in 2-octet form next to AS4_PATH / AS4_AGGREGATOR)',
     'C18k': 'caught by C04 from the start; in C18 a well-formed UPDATE may now arrive in 2, 3, 4, 9 (walks) or 200 (grid) TCP segments',
     'C20k': 'rotation thresholds 0, 1 and 60 octets (every record rotates) and a clock coarser than the event rate (several readings per tick, so two rotations can compute the same file name)',
+    'C02m': 'caught by C01 and C03 from the start; in C02 the cooperative peer of the hand-over may now be a slow one: it answers the agent\'s OPEN 2..200 s later (inside the 240 s of OpenSent), the bound grows by that latency',
+    'C03m': 'caught by C04 and C10 from the start; C03 arrivals may now be several messages in one TCP segment (KK, KU, UK, KUK)',
+    'C15m': 'caught by C06 and C17 from the start; C15 used to drop pool elements that do not decode on their own - now such an element must be refused next to a neighbour too (decode(a || e) defined while decode(e) raises = the meaning of e depends on its neighbour)',
+    'C17m': 'one attribute may now hold communities of several kinds: Hypothesis lists of 2-6 kinds and every ordered pair of kinds x 3 x 3 fixed values (encapsulation 8 / 9 / 2 among them)',
+    'C18m': 'new event: one REST request announcing 1200 prefixes (more than a 4096-octet UPDATE holds). On the unchanged tree this wrote a 6050-octet UPDATE - defect F062 (C08, oversize kind), fixed e69c0e1',
+    'C19m': 'histories may run on a session without the 4-octet-AS capability, and a REST announcement may carry an AS above 65535 (ann-big-as): the agent may refuse it, and the sent counter must move exactly when the Adj-RIB-Out it reports changed (table read before and after - no model needed)',
     'C16c': 'send cases now run with [bgp] rib on or off and with 0-2 earlier announcements on the same session whose prefixes the checked request may withdraw or re-announce (a withdraw list mixing announced and never-announced prefixes is the trigger)',
     'C19c': 'new operation: one peer UPDATE that carries IPv4 withdrawn routes together with a flowspec / VPNv4 MP_REACH or MP_UNREACH attribute; both parts must be applied (patch rebased onto the current tree because a later fix touched the same lines; original kept as patch.orig.diff)',
     'C20c': 'the peer address as configured became a dimension (IPv4, lower-case IPv6, upper-case IPv6) and a handler callback that raises is now a violation (event not logged) instead of a harness error',
@@ -147,7 +156,7 @@ def main():
     with open(os.path.join(HERE, 'seeded', 'INDEX.md'), 'w') as f:
         f.write('# Seeded changes (written by fresh sub-agents that saw only the property text)\n\n'
                 'Round 1: one change per property (C01..C20). Round 2 (ids ending in b): a second, different change for all twenty\n'
-                'properties. Rounds 3 to 10 (ids ending in c / d, e, f, g, h, i, j and k): further ones, the sub-agent being told what the earlier rounds had changed.\n'
+                'properties. Rounds 3 to 11 (ids ending in c / d, e, f, g, h, i, j, k and m): further ones, the sub-agent being told what the earlier rounds had changed.\n'
                 'Each directory holds patch.diff, the agent\'s demo.py, meta.json (incl. what the verifier ran) and\n'
                 'result.txt; `tools/try_seed.sh <id>` re-runs the confirmation on scratch copies of /repo.\n\n'
                 '| id | change | needs | caught on first run | final check result |\n|---|---|---|---|---|\n')
